@@ -11,7 +11,8 @@ RULE = ("through the real Calculate: (a) Hill 0..999, Shekel 0..999, Rastrigin(1
         "GKLS 2..5 x 1..100, Shekel4 1..3, Rastrigin / XSquared in dimensions 2..12 (and 13..128 by sampling plus axis line searches), StronginC3 over its feasible set: dense grid or low-discrepancy sampling + bounded local "
         "polishing from the best cells, from the declared point and from structure-aware starts (GKLS minimisers and balls, Shekel4 centres). Checked: |f(x_decl)-f_decl| <= 1e-4 (right after construction through the `fv = Calculate(point, fv)` idiom with the holder reused, and again after the instance has been evaluated), "
         "no value below f_decl - 2e-3*max(1,|f_decl|), a point within 0.5% of the side of x_decl whose value is within that tolerance of the best value found. "
-        "All instances of a case are constructed before any of them is examined (siblings built later are alive). Non-trivial: every instance; distinct = family member.")
+        "All instances of a case are constructed before any of them is examined (siblings built later are alive). Non-trivial: every instance; distinct = family member."
+       ' Every third instance is solved a little (console listener attached and / or refinement) and every 16th receives 6000 further evaluations before its declaration is read again; the declaration must be bitwise unchanged.')
 ASSUMPTIONS = ["Lipschitz bounds: Hill sum 2*pi*i*sqrt(a_i^2+b_i^2); Shekel sum (3*sqrt(3)/8)*sqrt(k_i/c_i^3); Rastrigin(1) 2*2.2+20*pi; XSquared(1) 2",
                "multi-dimensional families are explored, not certified: a narrow basin missed by the grid and all starts would go unnoticed",
                "near-ties between basins within the stated value tolerance are not an alarm"]
